@@ -191,3 +191,71 @@ func guardedByF(fn *ssa.Function, use ssa.Instruction, passing []edge) bool {
 		edgeBlock: func(e edge) bool { return set[e] }})
 	return !reach
 }
+
+// guardedByPhi is guardedBy with one refinement: when a block branches on a
+// phi of boolean constants defined in that same block (the `found := false …
+// found = true; break … if !found` idiom), the branch taken is determined by
+// the predecessor the path arrived from.
+func guardedByPhi(fn *ssa.Function, use ssa.Instruction, passing []edge) bool {
+	if len(passing) == 0 {
+		return false
+	}
+	set := map[edge]bool{}
+	for _, e := range passing {
+		set[e] = true
+	}
+	type item struct {
+		b    *ssa.BasicBlock
+		from *ssa.BasicBlock
+	}
+	seen := map[item]bool{}
+	work := []item{{fn.Blocks[0], nil}}
+	for len(work) > 0 {
+		it := work[len(work)-1]
+		work = work[:len(work)-1]
+		if seen[it] {
+			continue
+		}
+		seen[it] = true
+		for _, in := range it.b.Instrs {
+			if in == use {
+				return false
+			}
+		}
+		forced := -1
+		if ifi, ok := it.b.Instrs[len(it.b.Instrs)-1].(*ssa.If); ok && it.from != nil {
+			cond, pol := ifi.Cond, true
+			for {
+				if u, ok := cond.(*ssa.UnOp); ok && u.Op == token.NOT {
+					cond, pol = u.X, !pol
+					continue
+				}
+				break
+			}
+			if p, ok := cond.(*ssa.Phi); ok && p.Block() == it.b {
+				for k, pred := range it.b.Preds {
+					if pred == it.from {
+						if c, ok := p.Edges[k].(*ssa.Const); ok && c.Value != nil {
+							val := c.Value.String() == "true"
+							if val == pol {
+								forced = 0
+							} else {
+								forced = 1
+							}
+						}
+					}
+				}
+			}
+		}
+		for si, s := range it.b.Succs {
+			if forced >= 0 && si != forced {
+				continue
+			}
+			if set[edge{it.b, si}] {
+				continue
+			}
+			work = append(work, item{s, it.b})
+		}
+	}
+	return true
+}
